@@ -1131,8 +1131,14 @@ func (s *IPSets) writeUpdates(setName string, w io.Writer, listener UpdateListen
 
 	if needCreate || needTempIPSet {
 		if needTempIPSet {
-			// After the swap, the temp IP set has the _old_ dataplane metadata.
-			s.setNameToProgrammedMetadata.Dataplane().Set(tempSet, dpMeta)
+			// After the swap, the temp IP set has the _old_ dataplane metadata.  The
+			// DeleteFailed/ListFailed flags are our own bookkeeping about the main IP
+			// set; they must not carry over to the temp IP set or we'd never try to
+			// delete it (until the next resync).
+			tempMeta := dpMeta
+			tempMeta.DeleteFailed = false
+			tempMeta.ListFailed = false
+			s.setNameToProgrammedMetadata.Dataplane().Set(tempSet, tempMeta)
 		}
 		// The main IP set now has the correct metadata.
 		s.setNameToProgrammedMetadata.Dataplane().Set(setName, desiredMeta)
